@@ -207,7 +207,8 @@ fn scalar_real(case: &mut Case, success: bool) -> Result<(), String> {
         // every non-final step was larger than the tolerance (otherwise the solver should have stopped there)
         for k in 0..centers.len() - 1 {
             let step = (centers[k + 1].0 - centers[k].0).abs();
-            if step <= cfg.tol * (1.0 - 1e-9) {
+            // (the step is reconstructed as a difference of iterates: exact only up to eps*(|x_k| + |x_k+1|))
+            if step + 4.0 * f64::EPSILON * (centers[k + 1].0.abs() + centers[k].0.abs()) <= cfg.tol * (1.0 - 1e-9) {
                 return Err(format!("iteration {} made a step of {:e} <= tol = {:e} but the solver continued", k, step, cfg.tol));
             }
         }
@@ -215,7 +216,7 @@ fn scalar_real(case: &mut Case, success: bool) -> Result<(), String> {
         match res {
             Ok(v) => {
                 let step = (v - last.0).abs();
-                if !(step <= cfg.tol * (1.0 + 1e-9)) {
+                if !(step <= cfg.tol * (1.0 + 1e-9) + 4.0 * f64::EPSILON * (v.abs() + last.0.abs())) {
                     return Err(format!("Ok({:e}) although the last step {:e} exceeds tol = {:e} (last evaluated iterate {:e})", v, step, cfg.tol, last.0));
                 }
             }
@@ -224,7 +225,7 @@ fn scalar_real(case: &mut Case, success: bool) -> Result<(), String> {
                     return Err(format!("Err after {} iterations although max_iter = {}", centers.len(), cfg.max_iter));
                 }
                 let step = (v - last.0).abs();
-                if step <= cfg.tol * (1.0 - 1e-9) {
+                if step + 4.0 * f64::EPSILON * (v.abs() + last.0.abs()) <= cfg.tol * (1.0 - 1e-9) {
                     return Err(format!("Err({:e}) although the last step {:e} met the stopping criterion tol = {:e}", v, step, cfg.tol));
                 }
                 // the carried value is the last iterate: one Newton step beyond the last evaluated point
@@ -370,7 +371,7 @@ fn scalar_cmplx(case: &mut Case, success: bool) -> Result<(), String> {
             }
             for k in 0..centers.len() - 1 {
                 let step = (centers[k + 1] - centers[k]).abs();
-                if step <= cfg.tol * (1.0 - 1e-9) {
+                if step + 4.0 * f64::EPSILON * (centers[k + 1].abs() + centers[k].abs()) <= cfg.tol * (1.0 - 1e-9) {
                     return Err(format!("iteration {} made a step of {:e} <= tol = {:e} but the solver continued", k, step, cfg.tol));
                 }
             }
@@ -378,7 +379,7 @@ fn scalar_cmplx(case: &mut Case, success: bool) -> Result<(), String> {
             match &res {
                 Ok(v) => {
                     let step = (*v - last).abs();
-                    if !(step <= cfg.tol * (1.0 + 1e-9)) {
+                    if !(step <= cfg.tol * (1.0 + 1e-9) + 4.0 * f64::EPSILON * (v.abs() + last.abs())) {
                         return Err(format!("Ok({:?}) although the last step {:e} exceeds tol = {:e}", v, step, cfg.tol));
                     }
                 }
@@ -387,7 +388,7 @@ fn scalar_cmplx(case: &mut Case, success: bool) -> Result<(), String> {
                         return Err(format!("Err after {} iterations although max_iter = {}", centers.len(), cfg.max_iter));
                     }
                     let step = (*v - last).abs();
-                    if step <= cfg.tol * (1.0 - 1e-9) {
+                    if step + 4.0 * f64::EPSILON * (v.abs() + last.abs()) <= cfg.tol * (1.0 - 1e-9) {
                         return Err(format!("Err({:?}) although the last step {:e} met the stopping criterion", v, step));
                     }
                     // the carried value is one Newton step beyond the last evaluated point
